@@ -122,7 +122,12 @@ def run_variables(ctx: Ctx):
             # time stability: store a normalised value, update the domain, decode
             stored = ys[0]
             try:
-                var.update_domain((lo - 2.0 * (hi - lo), hi + 3.0 * (hi - lo)))
+                newdom = (lo - 2.0 * (hi - lo), hi + 3.0 * (hi - lo))
+                if var.distribution is None and rng.random() < 0.5:
+                    var.domain = newdom                 # the attribute assigned directly (no call that could refresh anything kept from earlier calls)
+                    case['domain_changed_by'] = 'assignment'
+                else:
+                    var.update_domain(newdom)
                 later = float(var.denormalize(stored))
             except Exception as e:
                 later = float('nan')
